@@ -50,6 +50,11 @@ theorem c18_monotone (total free free' : Nat) (msr : Rat) (hle : free ≤ free')
     (hr : refuse G total free' msr = some true) : refuse G total free msr = some true :=
   refuse_mono G (by decide) total free free' msr hle hr
 
+/-- "…and pauses while running": whatever the sequence of disk observations, after each watcher tick
+the pipeline is paused exactly when the guard's decision on the current numbers is `refuse`. -/
+theorem c18_watcher_tracks_guard (lows : List Bool) : watch G lows = lows :=
+  watch_tracks G (by decide) lows
+
 /-- The truncating comparison of the pinned tree (defect D13) is *not* exact: witness. -/
 theorem c18_trunc_counterexample :
     refuse { G with conv := .trunc } 1000000000000 322122547 (3 / 10) = some false ∧
